@@ -17,11 +17,24 @@ pub fn bytes_into_address(value: &[u8]) -> Result<pallas::ledger::addresses::Add
         .map_err(|_| Error::CoerceError(hex::encode(value), "Address".to_string()))
 }
 
+/// Builds a fixed-size hash from bytes that come from arguments or IR payloads,
+/// failing on a length mismatch instead of panicking.
+pub fn bytes_into_hash<const SIZE: usize>(bytes: &[u8]) -> Result<primitives::Hash<SIZE>, Error> {
+    if bytes.len() != SIZE {
+        return Err(Error::CoerceError(
+            hex::encode(bytes),
+            format!("Hash<{SIZE}>"),
+        ));
+    }
+
+    Ok(primitives::Hash::from(bytes))
+}
+
 pub fn policy_into_address(
     policy: &[u8],
     network: Network,
 ) -> Result<pallas::ledger::addresses::Address, Error> {
-    let policy = primitives::Hash::from(policy);
+    let policy = bytes_into_hash::<28>(policy)?;
 
     let network = match network {
         primitives::NetworkId::Testnet => pallas::ledger::addresses::Network::Testnet,
@@ -197,7 +210,7 @@ pub fn address_into_keyhash(
 
 pub fn expr_into_address_keyhash(expr: &tir::Expression) -> Result<primitives::AddrKeyhash, Error> {
     match expr {
-        tir::Expression::Bytes(x) => Ok(primitives::AddrKeyhash::from(x.as_slice())),
+        tir::Expression::Bytes(x) => bytes_into_hash(x.as_slice()),
         tir::Expression::Address(x) => {
             let address = bytes_into_address(x)?;
             address_into_keyhash(&address)
@@ -221,8 +234,8 @@ pub fn expr_into_hash<const SIZE: usize>(
     ir: &tir::Expression,
 ) -> Result<primitives::Hash<SIZE>, Error> {
     match ir {
-        tir::Expression::Bytes(x) => Ok(primitives::Hash::from(x.as_slice())),
-        tir::Expression::Hash(x) => Ok(primitives::Hash::from(x.as_slice())),
+        tir::Expression::Bytes(x) => bytes_into_hash(x.as_slice()),
+        tir::Expression::Hash(x) => bytes_into_hash(x.as_slice()),
         _ => Err(Error::CoerceError(format!("{ir:?}"), "Hash".to_string())),
     }
 }
